@@ -1628,6 +1628,10 @@ def _t_eval(target, _t, scope):
         elif op == '(':
             args, kwargs = arg
             scope[Path] += t_path[2:i+2:2]
+            if cur is None:
+                # Call(None) would mean "call the target"
+                raise TypeError('expected func to be a callable or T'
+                                ' expression, not: %r' % (cur,))
             # the arguments were evaluated above: Call takes them as they are
             cur = scope[glom](
                 target, Call(cur, Val(args), Val(kwargs)), scope)
